@@ -40,6 +40,8 @@ STD_CLASSES: List[dict] = [
     # same field names as class 3, every key required (for requiredness-only differences)
     {"kind": "typed", "total": True, "fields": [("k", None, None, True), ("o", None, None, True)]},   # 16
 ]
+from . import build as _B
+_B.STD_DESCS[0] = STD_CLASSES
 (C_DATA, C_SLOTS, C_NAMED, C_TYPED, C_PLAIN, C_STR, C_INT, C_DICT, C_LIST, C_FROZEN, C_TYPED2, C_UNHASH,
  C_POSTINIT, C_BASE2, C_DERIVED2, C_SLOTSUB, C_TYPED_ALLREQ) = range(17)
 
